@@ -45,7 +45,8 @@ LEMMA StepInv == Inv /\ [Next]_vars => Inv'
   <1>10. CASE Assign BY <1>10 DEF Assign
   <1>11. CASE BuildMsm BY <1>11 DEF BuildMsm
   <1>12. CASE UNCHANGED vars BY <1>12 DEF vars
-  <1> QED BY <1>1, <1>2, <1>3, <1>4, <1>5, <1>6, <1>7, <1>8, <1>9, <1>10, <1>11, <1>12 DEF Next
+  <1>13. CASE NewProcess BY <1>13 DEF NewProcess
+  <1> QED BY <1>1, <1>2, <1>3, <1>4, <1>5, <1>6, <1>7, <1>8, <1>9, <1>10, <1>11, <1>12, <1>13 DEF Next
 
 THEOREM Safety == Spec => []Inv
   BY InitInv, StepInv, PTL DEF Spec
